@@ -189,16 +189,22 @@ def po_limit(S):
     levels0 = snapshot_levels(book(m, "I0", side))
     cash0, pos0 = m.balance, _pos(m)
     else0 = dump(everything_else(w, "I0", side))
+    # optionally together with a price cap relative to mark: the limit level must then ALSO lie inside the cap
+    k = S.dec("max_mark_price_multiple", 1, 100) if S.bool("with_price_cap") else None
+    mark = Decimal(str(m._market_status.data.at["I0", "mark_price"]))
     try:
         if is_buy:
-            orders, fee = m.buy("I0", amount, limit)
+            orders, fee = m.buy("I0", amount, limit, None, k)
         else:
-            orders, fee = m.sell("I0", amount, limit)
+            orders, fee = m.sell("I0", amount, limit, None, k)
     except REJECT:
         return
     S.cover("accepted")
     S.check("exactly-one-fill", len(orders) == 1)
     n, p = orders[0].amount, orders[0].price
+    if k is not None:
+        S.check("with-a-cap:the-filled-level-is-inside-the-cap", (p < k * mark) if is_buy else (p > mark / k))
+    S.check("position-changes-by-exactly-the-fill", S.eq(_pos(m)[0], pos0[0] + n) if is_buy else S.eq(_pos(m)[0], pos0[0] - n))
     S.check("filled==requested-rounded(min-1)", n == max(half_up(amount), 1))
     S.check("fill-price-within-0.1%-of-the-limit", abs(p - limit) < limit * Decimal("0.001"))
     after = book(m, "I0", side)
